@@ -294,11 +294,11 @@ class NsMachine(RuleBasedStateMachine):
         if att:
             self.step(("detach", data.draw(st.sampled_from(att))))
 
-    @rule(x=st.integers(0, 9), k=st.sampled_from(["p", "q", "r"]), u=st.sampled_from(["U1", "U2", "U3"]))
+    @rule(x=st.integers(0, 9), k=st.sampled_from(["p", "q", "r", "xml", "eml"]), u=st.sampled_from(["U1", "U2", "U3"]))
     def declare(self, x, k, u):
         self.step(("declare", x % self.n, k, u))
 
-    @rule(x=st.integers(0, 9), k=st.sampled_from(["p", "q", "r"]))
+    @rule(x=st.integers(0, 9), k=st.sampled_from(["p", "q", "r", "xml", "eml"]))
     def remove(self, x, k):
         self.step(("remove", x % self.n, k))
 
@@ -352,7 +352,7 @@ class NsMachine(RuleBasedStateMachine):
 
 # ------------------------------------------------------------------ attach scenarios (subtree built first, attached last)
 
-PFX = ["p", "q", "r", "s", "t"]
+PFX = ["p", "q", "xml", "eml", "xsi"]     # also prefixes a library is tempted to special-case
 
 
 @st.composite
@@ -427,10 +427,13 @@ def machine_shard(ctx, shard):
 def run(ctx):
     if ctx.quick:
         bfs(ctx, 3, ["p"], 99)
+        bfs(ctx, 3, ["xml"], 99)      # the same closed scope with a prefix that invites special treatment
         bfs(ctx, 3, ["p", "q"], 5)
     else:
         bfs(ctx, 3, ["p"], 99)
+        bfs(ctx, 3, ["xml"], 99)
         bfs(ctx, 3, ["p", "q"], 99)
+        bfs(ctx, 3, ["xml", "eml"], 99)
         bfs(ctx, 4, ["p"], 99)
     ctx.pmap(machine_shard, range(16))
     ctx.pmap(attach_shard, range(16))
